@@ -194,7 +194,8 @@ def roundtrip(w, code, raw_items, endpoint='json_to_bin', comma=False):
 
 # non-default local configurations under which the same texts must be accepted: 4-octet AS support switched off locally
 # (the peer still announces it), capabilities reduced
-LOCAL_CFGS = {'x': None, 'as4-off': {'four_bytes_as': False}, 'caps-off': {'route_refresh': False, 'cisco_route_refresh': False, 'graceful_restart': False}}
+LOCAL_CFGS = {'x': None, 'as4-off': {'four_bytes_as': False}, 'caps-off': {'route_refresh': False, 'cisco_route_refresh': False, 'graceful_restart': False},
+              'rib-on': {'rib': True}}
 
 
 COMMA_KINDS = {'route-target': ('0002', '0102', '0202'), 'route-origin': ('0003', '0103', '0203')}      # type codes: 2-octet AS, IPv4, 4-octet AS
@@ -286,6 +287,9 @@ def run(tier, seed):
     tasks = [('x', items[i:i + 150]) for i in range(0, len(items), 150)]
     for kind in ('as4-off', 'caps-off'):
         tasks += [(kind, singles[i:i + 150]) for i in range(0, len(singles), 150)]
+    # with RIB maintenance on the agent also files what it sends: the lists of a request must reach the wire as written
+    multi = pairs + commas
+    tasks += [('rib-on', multi[i:i + 150]) for i in range(0, len(multi), 150)]
     # two requests translated by two worker threads at once: every schedule with one preemption (vf/threads.py, vf/concurrent.py)
     from .. import concurrent
     tasks += [('threads', a) for a in concurrent.tasks(PROP, tier)]
